@@ -25,7 +25,8 @@ CONSTANTS KindSets      \* the sets of fragment kinds to explore
 \* retptr / retval / arg: the three documented shapes; recvptr: return style with :recv (the source is the
 \* receiver); argrev: :style arg with :reverse (the copy goes INTO the method's source operand; additional
 \* arguments are illegal there and which operand a hook sees is undocumented, so such programs have neither)
-Styles == {"retptr", "retval", "arg", "recvptr", "argrev"}
+\* argval: :style arg on a method that declares its destination BY VALUE - the header takes a pointer all the same
+Styles == {"retptr", "retval", "arg", "argval", "recvptr", "argrev"}
 HookShapes == {[on |-> FALSE, dstPtr |-> FALSE, srcPtr |-> FALSE, err |-> FALSE, args |-> FALSE],
                [on |-> TRUE, dstPtr |-> TRUE, srcPtr |-> TRUE, err |-> FALSE, args |-> FALSE],
                [on |-> TRUE, dstPtr |-> FALSE, srcPtr |-> FALSE, err |-> FALSE, args |-> TRUE],
